@@ -149,13 +149,16 @@ func (l *Listener) Accept() (net.Conn, error) {
 
 // Close implements net.Listener.
 func (l *Listener) Close() error {
+	// like a real listener: closing it a second time is an error
+	err := net.ErrClosed
 	l.once.Do(func() {
+		err = nil
 		close(l.closed)
 		l.n.mu.Lock()
 		delete(l.n.listeners, l.a)
 		l.n.mu.Unlock()
 	})
-	return nil
+	return err
 }
 
 // Addr implements net.Listener.
